@@ -21,6 +21,12 @@ def run(tier):
                                       MaxVer=5), invs=INV9, timeout=1700)
     # with the cleanup drawn at the tail of successful add_versions
     cmc(v, wd, "2c-3ops-cleanup", cconsts(Ops={"AV", "GC"}, MaxOps=3, Draws={0, 255}), invs=INV9)
+    # listings as sequences of page requests (one name per page), every relative order of names
+    cmc(v, wd, "2c-2ops-paged", cconsts(Ops={"AV", "GC"}, MaxOps=2, MaxVer=3, Draws={0, 255},
+                                        PageSize=1), invs=INV9, timeout=1200)
+    if thorough:
+        cmc(v, wd, "2c-3ops-paged", cconsts(Ops={"AV", "GC"}, MaxOps=3, MaxVer=3, Draws={255},
+                                            PageSize=1), invs=INV9, timeout=1700)
     # anti-vacuity: the pinned cleanup order lets a reader lose an accepted version
     cmc(v, wd, "2c-3ops-pinned-cleanup", cconsts(Ops={"AV", "GC"}, MaxOps=3, Draws={0, 255},
                                                  Dev={"GC1"}), invs=INV9 + ["RetainedComplete"],
@@ -36,6 +42,11 @@ def run(tier):
     sch = cgen(wd, "gen-3c-sim", g3, simulate=2500 if thorough else 250, depth=111)
     v.distinct += len(sch)
     cconform(v, wd, "3c-sim", g3, sch, invs=INV9)
+    gp = cconsts(Clients={"c1", "c2", "c3"}, Ops={"AV", "GC"}, MaxOps=3, MaxVer=9, MaxLen=140,
+                 Draws={0, 255}, PageSize=1)
+    sch = cgen(wd, "gen-3c-paged-sim", gp, simulate=2000 if thorough else 150, depth=141)
+    v.distinct += len(sch)
+    cconform(v, wd, "3c-paged-sim", gp, sch, invs=INV9, page_size=1)
     g4 = cconsts(Clients={"c1", "c2", "c3", "c4"}, Ops=ops, MaxOps=3, MaxVer=16, MaxLen=140,
                  Draws={0, 100, 255})
     sch = cgen(wd, "gen-4c-sim", g4, simulate=2500 if thorough else 150, depth=141)
@@ -51,6 +62,7 @@ def run(tier):
                   "return value is validated against CloudStore with OneChildPerParent, "
                   "AckedOnChain, ReadsOnChain evaluated on every state; afterwards every client "
                   "walks the chain; distinct = distinct interleavings",
-             assumptions=["a listing is one atomic request (page size larger than the store); "
+             assumptions=["listings are atomic requests in most families and sequences of "
+                          "one-name pages in the *paged* ones; "
                           "the Service contract (atomic per-object operations, CAS) is what the "
                           "AWS/GCP adaptors are supposed to provide and cannot be run offline"])
